@@ -114,12 +114,33 @@ def check_theorems(prop, log):
                     broken.append(f'{n}: depends on axioms {bad}')
                 else:
                     discharged += 1
+    # statement pins: the Props files must be the committed ones (a weakened statement is a broken obligation)
+    pins_p = os.path.join(COQ, 'Props', 'pins.json')
+    if os.path.exists(pins_p):
+        pins = json.load(open(pins_p))
+        for pf in files:
+            rel = os.path.relpath(pf, COQ)
+            h = hashlib.sha256(open(pf, 'rb').read()).hexdigest()
+            if rel in pins and pins[rel] != h:
+                broken.append(f'{rel} differs from its pinned statement hash (Props/pins.json)')
     for f in glob.glob(os.path.join(COQ, '**', '*.v'), recursive=True):
         txt = re.sub(r'\(\*.*?\*\)', '', open(f).read(), flags=re.S)
         txt = re.sub(r'"[^"]*"', '""', txt)
         m = FORBIDDEN.search(txt)
         if m:
             broken.append(f'forbidden construct {m.group(0)!r} in {os.path.relpath(f, COQ)}')
+    if os.environ.get('HB_COQCHK') == '1' and not broken:
+        mods = ' '.join('HB.Props.' + os.path.basename(f)[:-2] for f in files
+                        if os.path.relpath(f, COQ) in open(os.path.join(COQ, '_CoqProject')).read())
+        rc, out = sh(f'timeout 3000 coqchk -o -silent -Q . HB {mods} 2>&1', cwd=COQ, timeout=3100)
+        log.append('coqchk: ' + out.strip()[-600:])
+        if rc != 0:
+            broken.append('coqchk failed: ' + out[-800:])
+        else:
+            m = re.search(r'Axioms:(.*?)(?:\n\s*\n|\Z)', out, re.S)
+            ax = (m.group(1).strip() if m else '')
+            if ax and '<none>' not in ax:
+                broken.append('coqchk reports axioms: ' + ax[:400])
     return obligations, discharged, details, broken
 
 
@@ -183,6 +204,8 @@ def main():
             print('oracle:', fails or 'ok', '| correspondence:', 'agree' if eq else 'DISAGREE')
         sys.exit(0)
 
+    if tier == 'thorough':
+        os.environ['HB_COQCHK'] = '1'
     if args.no_proof:
         obligations, discharged, thm_details, thm_broken = 0, 0, [], []
     else:
